@@ -51,6 +51,8 @@ def write(s, style="minimal", rng=None):
             need = need or not is_leaf
         elif style == "redundant" and rng is not None:
             need = need or rng.random() < 0.3
+        if need and style == "redundant" and rng is not None and rng.random() < 0.25:
+            return ["paren", ["paren", e]]     # several layers must be as inert as one
         return ["paren", e] if need else e
 
     t = s[0]
